@@ -51,7 +51,7 @@ class Spec(PropSpec):
 
     def oracle(self, case, obs):
         if obs.get("panic"):
-            return []
+            return [("the implementation panicked while executing the script: %s" % obs["panic"], None)]
         return F.oracle(case, obs)
 
     def nontrivial(self, case, obs):
